@@ -271,3 +271,25 @@ Theorem C16_comment_block_at_top_assemble : forall t fs c f blk b tb eb lb,
   Forall (fun x => t_type x = T_COMMENT) tb ->
   result_same_up_to_positions (assemble_source t fs c f b) (assemble_source t fs c f (blk ++ b)).
 Proof. exact comment_block_at_top_assemble. Qed.
+
+(** ... and with a STATIC condition: a block of comment lines ([;] lines or a [/* */] comment)
+    inserted between two lines leaves the output unchanged whenever the first token after it starts
+    a statement in a way no unfinished statement can take as its continuation — an instruction, a
+    directive keyword, a label, [*=], [@=], [{{], [}] or the end of the text ([s_ok]; an operator or
+    an operand there would continue the previous line: shown necessary above).  No included file;
+    one contiguous comment block (several: compose, the relation is transitive). *)
+From A816 Require Import Proofs.LayoutLinkStatic.
+Theorem C16_comment_block_between_assemble : forall t fs c f a blk b ta ea la tcs eb lb,
+  lexicon_ok (lv_lex t) = true -> sf_text fs = [] ->
+  ends_nl a -> scan (lv_lex t) f a = ScanOk (ta ++ [ea]) la ->
+  ends_nl blk -> scan (lv_lex t) f blk = ScanOk (tcs ++ [eb]) lb ->
+  tcs <> [] -> Forall comment_tok tcs ->
+  (forall toks lines, scan (lv_lex t) f b = ScanOk toks lines -> s_ok (nth 0 toks eof_token)) ->
+  result_same_output (assemble_source t fs c f (a ++ b)) (assemble_source t fs c f (a ++ blk ++ b)).
+Proof. exact comment_block_between_assemble. Qed.
+Theorem C16_comments_inserted_parse : forall inc incfuel ta cs tb,
+  (forall name, exists k, inc name = Err k) ->
+  cs <> [] -> Forall comment_tok cs -> s_ok (nth 0 tb eof_token) ->
+  prelD (parse_program (parse_fuel (length (ta ++ tb))) incfuel inc (ta ++ tb))
+        (parse_program (parse_fuel (length (ta ++ cs ++ tb))) incfuel inc (ta ++ cs ++ tb)).
+Proof. exact parse_comments_inserted. Qed.
